@@ -36,7 +36,7 @@ def seg(ev, what):
 
 def analyse_sender(f, rep, co, label, push_before_write_ok=False, param_pred=None, split_halves=False):
     nw = nempty = nskip = nok = nerr = 0
-    for p in pathq.paths(f, co, max_visits=2):
+    for p in pathq.paths(f, co, max_visits=2, inline_async=True):
         pops = [(i, ev) for i, ev in enumerate(p.events) if seg(ev, "pop")]
         pushes = [(i, ev) for i, ev in enumerate(p.events) if seg(ev, "push")]
         ww = wire_writes(p)
